@@ -11,26 +11,46 @@ from harness.impl.c03 import build, pose4, arr, fl
 from harness.impl import shapes_trace as st
 
 
-def predicate(sh, pts):
+def call_args(sh, pts):
+    """(function, argument list) - the argument objects are kept so that the caller can check that
+    they are not modified and call the function again with the very same objects"""
     k = sh["kind"]
     P = np.ascontiguousarray(np.array(pts, dtype=float).reshape(-1, 3))
     if k == "sphere":
-        return ct.points_in_sphere(P, arr(sh["c"]), float(sh["r"]))
+        return ct.points_in_sphere, [P, arr(sh["c"]), float(sh["r"])]
     if k == "capsule":
-        return ct.points_in_capsule(P, pose4(sh["R"], sh["t"]), float(sh["r"]), float(sh["h"]))
+        return ct.points_in_capsule, [P, pose4(sh["R"], sh["t"]), float(sh["r"]), float(sh["h"])]
     if k == "ellipsoid":
-        return ct.points_in_ellipsoid(P, pose4(sh["R"], sh["t"]), arr(sh["radii"]))
+        return ct.points_in_ellipsoid, [P, pose4(sh["R"], sh["t"]), arr(sh["radii"])]
     if k == "disk":
-        return ct.points_in_disk(P, arr(sh["c"]), float(sh["r"]), arr(sh["n"]))
+        return ct.points_in_disk, [P, arr(sh["c"]), float(sh["r"]), arr(sh["n"])]
     if k == "cone":
-        return ct.points_in_cone(P, pose4(sh["R"], sh["t"]), float(sh["r"]), float(sh["h"]))
+        return ct.points_in_cone, [P, pose4(sh["R"], sh["t"]), float(sh["r"]), float(sh["h"])]
     if k == "cylinder":
-        return ct.points_in_cylinder(P, pose4(sh["R"], sh["t"]), float(sh["r"]), float(sh["l"]))
+        return ct.points_in_cylinder, [P, pose4(sh["R"], sh["t"]), float(sh["r"]), float(sh["l"])]
     if k == "box":
-        return ct.points_in_box(P, pose4(sh["R"], sh["t"]), arr(sh["size"]))
+        return ct.points_in_box, [P, pose4(sh["R"], sh["t"]), arr(sh["size"])]
     if k == "mesh":
-        return ct.points_in_convex_mesh(P, pose4(sh["R"], sh["t"]), arr(sh["vs"]), np.array(sh["triangles"], dtype=int))
+        return ct.points_in_convex_mesh, [P, pose4(sh["R"], sh["t"]), arr(sh["vs"]), np.array(sh["triangles"], dtype=int)]
     raise ValueError(k)
+
+
+def predicate(sh, pts):
+    f, args = call_args(sh, pts)
+    return f(*args)
+
+
+def predicate_checked(sh, pts, out):
+    """first call, argument integrity, second call with the same objects"""
+    f, args = call_args(sh, pts)
+    copies = [a.copy() if isinstance(a, np.ndarray) else a for a in args]
+    res = f(*args)
+    mod = [i for i, (a, b) in enumerate(zip(args, copies))
+           if isinstance(a, np.ndarray) and not np.array_equal(a, b, equal_nan=True)]
+    out["args_modified"] = mod
+    res2 = f(*args)
+    out["second_call_same"] = bool(np.array_equal(np.asarray(res), np.asarray(res2)))
+    return res
 
 
 def distance_fn(sh):
@@ -75,7 +95,7 @@ def run_case(case):
         out["build_msg"] = str(e)[:300]
         return out
     try:
-        res = traced(predicate, sh, case["points"])
+        res = traced(predicate_checked, sh, case["points"], out)
         res = np.asarray(res)
         if res.shape != (len(case["points"]),) or res.dtype != np.bool_:
             raise AssertionError(f"result shape {res.shape} dtype {res.dtype}")
